@@ -211,6 +211,11 @@ func (obj *Flavor) inheritFlavor(cf *Flavor) {
 			obj.keywords[k] = v
 		}
 	}
+	for k, v := range cf.initable {
+		if v {
+			obj.initable[k] = true
+		}
+	}
 	for k, im := range cf.methods {
 		m := obj.methods[k]
 		if m == nil {
